@@ -17,10 +17,14 @@ EXPLANATION = (
 
 
 def check(ctx, run):
-    run.rules_run = ['R05.1', 'R05.2', 'R05.4', 'R05.5', 'R05.6', 'R05.7', 'R05.8', 'R05.9', 'R05.12', 'R05.14']
+    run.rules_run = ['R05.1', 'R05.2', 'R05.4', 'R05.5', 'R05.6', 'R05.7', 'R05.8', 'R05.9', 'R05.12', 'R05.14', 'R05.18']
     walkers.w_init(ctx, run, 'R05.1', floor=15)
     walkers.w_advance(ctx, run, 'R05.2', floor=24)
     walkers.w_pair(ctx, run, 'R05.14', floor=65)
+    walkers.r05_18(ctx, run, 'R05.18')
+    # the byte accessor and the accessor of the decoded tree fold case the same way (the tree answer is what C05 compares with)
+    from rules import c11 as _c11
+    _c11.twin_case_folding(ctx, run, 'R05.19/R11.4')
     from rules import units as _units
     _units.check(ctx, run, 'R05.15', floor=1500)
     accessors.r05_4(ctx, run)
